@@ -89,7 +89,8 @@ theorem C15_answers : ∀ d : Dir, Inv d → (run d none).answers = some true :=
 theorem C15_priors_inv : ∀ n ∈ ["absent", "complete", "other-version", "other-data", "meta-missing",
     "meta-truncated", "meta-garbage", "index-missing", "index-damaged", "index-emptied",
     "stale-wrong-hash", "stale-no-hash", "stale-null-hash", "olddocs-wrong-hash", "olddocs-other-version",
-    "olddocs-no-hash"],
+    "olddocs-no-hash", "foreign-other-version", "foreign-meta-missing", "partial-meta-missing",
+    "partial-other-version"],
     ∃ d, prior n = some d ∧ Inv d := by
   decide
 
